@@ -19,7 +19,12 @@ pub fn build_java(dir: &std::path::Path, descs: Vec<RemoteDesc>) -> (Vec<RemoteD
         let Ok(Ok(af)) = guarded(|| analyze(&f)) else { continue };
         match guarded(|| pdl_compiler::backends::java::generate(&db, &af, &[], &src, &format!("p{}", rd.idx))) {
             Ok(Ok(())) => gen_ok.push(rd),
-            _ => dropped += 1,
+            other => {
+                if std::env::var("PDLV_SURVEY").is_ok() {
+                    println!("dropped: generator: {}", match other { Err(m) => m, Ok(Err(e)) => e.to_string(), _ => String::new() }.chars().take(160).collect::<String>());
+                }
+                dropped += 1
+            }
         }
     }
     let results: Vec<bool> = std::thread::scope(|sc| {
@@ -30,7 +35,15 @@ pub fn build_java(dir: &std::path::Path, descs: Vec<RemoteDesc>) -> (Vec<RemoteD
                 let out = dir.join("out");
                 sc.spawn(move || {
                     let files: Vec<_> = std::fs::read_dir(src.join(format!("p{}", rd.idx))).map(|r| r.flatten().map(|e| e.path()).collect()).unwrap_or_default();
-                    Command::new("javac").arg("-d").arg(&out).arg("-nowarn").args(&files).output().map(|o| o.status.success()).unwrap_or(false)
+                    let o = Command::new("javac").arg("-d").arg(&out).arg("-nowarn").args(&files).output();
+                    if let (Ok(o), true) = (&o, std::env::var("PDLV_SURVEY").is_ok()) {
+                        if !o.status.success() {
+                            let e = String::from_utf8_lossy(&o.stderr);
+                            let l: Vec<&str> = e.lines().take(3).collect();
+                            println!("dropped: javac: {}", l.join(" | ").chars().take(300).collect::<String>());
+                        }
+                    }
+                    o.map(|o| o.status.success()).unwrap_or(false)
                 })
             })
             .collect();
@@ -157,6 +170,8 @@ pub fn run(tier: &str, seed: u64) -> i32 {
     let (kf, _) = load_kf();
     let thorough = tier == "thorough";
     std::panic::set_hook(Box::new(|_| {}));
+    let survey = std::env::var("PDLV_SURVEY").is_ok();
+    pdlv_core::choice::MAX_SHRINK.store(if survey { 0 } else { 300 }, std::sync::atomic::Ordering::Relaxed);
     // Domain: the canonical declarations the repository's Java CI keeps, in both endiannesses, plus
     // variants with redistributed bit-field widths and other array element widths (DESIGN section 10
     // fallback: the Java generator fails on most shapes outside this family, see section 7).
@@ -181,7 +196,22 @@ pub fn run(tier: &str, seed: u64) -> i32 {
             }
         }
     }
-    let _ = Profile::java();
+    // generated descriptions of the java profile, as LE/BE twins
+    let ngen = if thorough { 160 } else { 32 };
+    let mut profile = Profile::java_rt();
+    if survey {
+        // exploration: PDLV_JAVA_SET=flag=1,other=0
+        for kv in std::env::var("PDLV_JAVA_SET").unwrap_or_default().split(',').filter(|x| !x.is_empty()) {
+            let (k, v) = kv.split_once('=').unwrap_or((kv, "1"));
+            profile.set(k, v.parse().unwrap_or(1));
+        }
+    }
+    let (gen, d1) = crate::c13::draw(seed, tier, &profile, "C19", ngen);
+    dropped += d1;
+    for mut rd in gen {
+        rd.idx = descs.len();
+        descs.push(rd);
+    }
     let dir = work_dir().join(format!("java-{tier}-{seed}"));
     let (descs, d2) = build_java(&dir, descs);
     dropped += d2;
@@ -194,6 +224,17 @@ pub fn run(tier: &str, seed: u64) -> i32 {
         }
     };
     let _ = std::fs::remove_dir_all(&dir);
+    if survey {
+        let mut h: std::collections::BTreeMap<String, (usize, String)> = Default::default();
+        for v in &partial.violations {
+            let k = format!("{} | {}", v["op"].as_str().unwrap_or(""), v["observed"].as_str().unwrap_or("").chars().take(60).collect::<String>());
+            let e = h.entry(k).or_insert((0, format!("{} {} :: {}", v["type"].as_str().unwrap_or(""), v["input"], v["detail"].as_str().unwrap_or("").chars().take(200).collect::<String>())));
+            e.0 += 1;
+        }
+        for (k, (n, ex)) in h {
+            println!("{n:4}  {k}\n        e.g. {ex}");
+        }
+    }
     let v = Verdict {
         property: "C19".into(),
         tier: tier.into(),
@@ -206,4 +247,16 @@ pub fn run(tier: &str, seed: u64) -> i32 {
         known_reproduced: vec![],
     };
     finish(v, &kf)
+}
+
+/// Replay one recorded case against freshly generated and compiled Java classes.
+pub fn replay_file(rec: &serde_json::Value) -> Option<(Vec<RFail>, std::collections::BTreeSet<String>)> {
+    let d = serde_json::from_value::<pdlv_core::model::Desc>(rec["model"].clone()).ok()?;
+    let text = pdlv_core::print::plain(&d);
+    let rd = RemoteDesc { idx: 0, desc: d.clone(), text: text.clone(), strata: vec![] };
+    let dir = work_dir().join(format!("java-replay-{}", std::process::id()));
+    let (ok, _) = build_java(&dir, vec![RemoteDesc { idx: 0, desc: d, text, strata: vec![] }]);
+    let out = if ok.is_empty() { None } else { JavaTarget::new(&dir.join("out")).ok().map(|mut t| replay_one(Backend::Java, &mut t, &rd, rec)) };
+    let _ = std::fs::remove_dir_all(&dir);
+    out
 }
